@@ -33,6 +33,18 @@ class PoolRun:
         asyncio.create_subprocess_shell = self._spawn
         self.sched = local.Scheduler(self.wd, cores)
         self.n = 0
+        self.tids = []      # real task ids in order of acceptance; traces use the index (ids need only be unique)
+
+    def index_of(self, tid):
+        """Acceptance index of a task id handed out by the pool; a repeated or foreign id maps to an
+        index that cannot match the specification's next id."""
+        if tid in self.tids:
+            return self.tids.index(tid)
+        self.tids.append(tid)
+        return len(self.tids) - 1
+
+    def real(self, index):
+        return self.tids[index] if 0 <= index < len(self.tids) else -1 - index
 
     async def _spawn(self, script, stdout=None, stderr=None, cwd=None, **kw):
         tid = int(script.split()[1])
@@ -74,7 +86,7 @@ class PoolRun:
         return {
             "n": self.n,
             "now": int(self.loop.time()),
-            "states": {str(k): v.name for k, v in ts.items()},
+            "states": {str(self.tids.index(k) if k in self.tids else k): v.name for k, v in ts.items()},
             "live": sorted(t for t, p in self.procs.items() if p.returncode is None),
             "spawned": list(self.spawned),
         }
@@ -93,10 +105,11 @@ class PoolRun:
                 self.sched.enqueue_task(
                     name=name, script="task %d" % self.n,
                     working_dir=NOWHERE if "startfails" in attrs else self.wd,
-                    time_limit=e["limit"] if e["limit"] else None, deps=deps,
+                    time_limit=e["limit"] if e["limit"] else None, deps=[self.real(d) for d in deps],
                 )
             )
-            rec = {"e": "Enqueue", "deps": deps, "limit": e["limit"], "attrs": attrs, "t": self.n, "tid_returned": tid if status == "ok" else -1}
+            rec = {"e": "Enqueue", "deps": deps, "limit": e["limit"], "attrs": attrs, "t": self.n,
+                   "tid_returned": self.index_of(tid) if status == "ok" else -1}
             self.n += 1
         elif kind == "Exit":
             p = self.procs.get(e["t"])
@@ -108,7 +121,7 @@ class PoolRun:
         elif kind == "Cancel":
             if e["t"] >= self.n:
                 return None
-            self.call(self.sched.cancel_task(e["t"]))
+            self.call(self.sched.cancel_task(self.real(e["t"])))
             rec = {"e": "Cancel", "t": e["t"]}
         elif kind == "Tick":
             w = self.loop.next_timer()
@@ -238,14 +251,14 @@ def bad_payload(kind, n):
         "nokind": (J(name="x", script="task 0"), False),
         "unknownkind": (J(__kind__="frobnicate"), False),
         "enq_missing": (J(__kind__="enqueue_task", name="x", working_dir="/tmp", deps=[]), False),
-        "cancel_unknown": (J(__kind__="cancel_task", tid=n + 50), False),
+        "cancel_unknown": (J(__kind__="cancel_task", tid=7), False),
         "cancel_nonint": (J(__kind__="cancel_task", tid="abc"), False),
         "invalid_utf8": (b"\xff\xfe{\n", False),
         "overlong": (b"{" + b"x" * 70000 + b"\n", False),
         "partial_eof": (b'{"__kind__": "enqueue_task", "name": "x"', True),
         "eof": (b"", True),
         "close": (J(__kind__="close"), False),
-        "state_unknown": (J(__kind__="get_task_state", tid=n + 50), False),
+        "state_unknown": (J(__kind__="get_task_state", tid=7), False),
     }[kind]
 
 
@@ -268,6 +281,7 @@ def drive_server(item):
         rep = hc().request("get_task_states")
         ok = len(rep) == 1 and rep[0].get("__kind__") == "task_states"
         tasks = rep[0]["tasks"] if ok else {}
+        tasks = {str(run.tids.index(int(k)) if str(k).lstrip("-").isdigit() and int(k) in run.tids else k): v for k, v in tasks.items()}
         return {"e": "ReqStates", "reply": tasks if ok else {"0": "NO-REPLY"}, "count": len(tasks) if ok else -1, "obs": run.observe()}
 
     from .common import GwfTimeout, time_limit
@@ -288,11 +302,12 @@ def drive_server(item):
                 name = "task%d" % run.n
                 if "logfails" in attrs:
                     os.makedirs(os.path.join(run.wd, ".gwf", "logs", name + ".stdout"), exist_ok=True)
-                msg = dict(name=name, script="task %d" % run.n, working_dir=NOWHERE if "startfails" in attrs else run.wd, deps=deps)
+                msg = dict(name=name, script="task %d" % run.n, working_dir=NOWHERE if "startfails" in attrs else run.wd, deps=[run.real(d) for d in deps])
                 if e["limit"]:
                     msg["time_limit"] = e["limit"]
                 rep = c.request("enqueue_task", **msg)
                 tid = rep[0].get("tid", -1) if len(rep) == 1 and rep[0].get("__kind__") == "task_enqueued" else -1
+                tid = run.index_of(tid) if isinstance(tid, int) and tid != -1 else -1
                 if tid == run.n or tid == -1:
                     pass
                 rec = {"e": "ReqEnqueue", "deps": deps, "limit": e["limit"], "attrs": attrs, "reply": tid, "t": run.n}
@@ -300,7 +315,7 @@ def drive_server(item):
                     run.n += 1
             elif kind == "Cancel":
                 if e["t"] < run.n:
-                    hc().request("cancel_task", tid=e["t"])
+                    hc().request("cancel_task", tid=run.real(e["t"]))
                     rec = {"e": "ReqCancel", "t": e["t"]}
             elif kind == "States":
                 events.append(states_event())
@@ -318,13 +333,14 @@ def drive_server(item):
                 if bk == "enq_extra":
                     msg["bogus"] = [1, 2]
                 elif bk == "enq_unknown_dep":
-                    msg["deps"] = [run.n + 40]
+                    msg["deps"] = [7]
                 elif bk == "enq_deps_str":
                     msg["deps"] = "abc"
                 elif bk == "enq_limit_str":
                     msg["time_limit"] = "abc"
                 rep = c.request("enqueue_task", **msg)
                 tid = rep[0].get("tid", -1) if len(rep) == 1 and rep[0].get("__kind__") == "task_enqueued" else -1
+                tid = run.index_of(tid) if isinstance(tid, int) and tid != -1 else -1
                 attrs = {"enq_extra": [], "enq_limit_str": ["badlimit"]}.get(bk, ["baddeps"])
                 rec = {"e": "BadEnq", "kind": bk, "attrs": attrs, "reply": tid, "t": run.n}
                 if len(run.sched.task_states) > run.n:
